@@ -40,7 +40,8 @@ TRUSTED_BASE = [
     "axioms allowed: propext, Classical.choice, Quot.sound (audited with #print axioms on every registered theorem)",
     "Mathlib v4.33.0 modules imported by Props/Lemmas files",
     "Lean interpreter running Main.lean (lake env lean --run) and Lean.Data.Json",
-    "harness/translate.py (Python ast) regenerating CnvVerif/Generated/*.lean from /repo",
+    "harness/translate.py (Python ast) regenerating CnvVerif/Generated/*.lean from /repo (constants, tables, regexes, RNG skeletons)",
+            "harness/exprtrans.py: the reading of the Python subset in which the pure arithmetic functions are written (Generated/Exprs*.lean; rules listed at the top of the file)",
     "harness correspondence: generators, adapters to the real cnvlib/skgenome code, canonicaliser, comparator (float tolerance 1e-9, knife-edge rule)",
     "modelled, not verified: CPython, pandas/numpy semantics, IEEE-754 rounding, third-party scipy/pysam/pomegranate",
 ]
